@@ -92,7 +92,7 @@ func runC19(c *core.Ctx) *core.Violation {
 		srcPassword = ""
 	}
 	level := []string{"debug", "info", "warn", "error"}[t.Choose(4)]
-	scenario := []string{"sync", "sync-target-cut", "sync-source-cut", "restore", "rump", "checkpoint", "supervisor"}[t.Choose(7)]
+	scenario := []string{"sync", "sync-target-cut", "sync-source-cut", "restore", "rump", "checkpoint", "supervisor", "dump", "decode"}[t.Choose(9)]
 	c.Sub = scenario
 	c.Sample = map[string]interface{}{"scenario": scenario, "log_level": level, "unprotected_source": unprotectedSource}
 	var status []string // status documents rendered as text
@@ -225,6 +225,60 @@ func runC19(c *core.Ctx) *core.Violation {
 			}
 		})
 		c.Absorb(s)
+	case "dump":
+		env.DefaultOptions(conf.TypeDump)
+		lc = env.CaptureLog(level, 8<<20)
+		conf.Options.LogLevel = level
+		conf.Options.TargetRdbOutput = filepath.Join(c.TmpDir, "c19-dump")
+		conf.Options.SourceAddressList = []string{srcAddr}
+		conf.Options.SourcePasswordRaw = srcPassword
+		conf.Options.TargetPasswordRaw = tgtPassword
+		conf.Options.SourceRdbParallel = 1
+		s := simrt.Run(c.TT, t, cfg, func(s *simrt.Sim) {
+			net := simnet.New(s)
+			src := modelredis.NewMaster(s, net, "source", srcAddr)
+			src.Password = srcPassword
+			src.RDB, _ = smallRDB(t, 3)
+			src.Release = []modelredis.Release{{Upto: 0, At: 0}}
+			if srcPassword != "" && t.Choose(4) == 3 {
+				src.AuthUnknown = true
+				c.Probe("auth_rejected_with_echo")
+			}
+			proc := s.NewProc("tool")
+			done := false
+			s.GoProc(proc, "dump-main", func() { (&run.CmdDump{}).Main(); done = true })
+			for i := 0; i < 300 && !done && s.Alive(proc); i++ {
+				s.Sleep(100 * time.Millisecond)
+			}
+			if b, err := json.Marshal(conf.GetSafeOptions()); err == nil {
+				status = append(status, "GetSafeOptions: "+string(b))
+			}
+		})
+		c.Absorb(s)
+	case "decode":
+		env.DefaultOptions(conf.TypeDecode)
+		lc = env.CaptureLog(level, 8<<20)
+		conf.Options.LogLevel = level
+		conf.Options.SourcePasswordRaw = srcPassword
+		conf.Options.TargetPasswordRaw = tgtPassword
+		in := filepath.Join(c.TmpDir, "c19-in.rdb")
+		file, _ := smallRDB(t, 3)
+		os.WriteFile(in, file, 0644)
+		conf.Options.SourceRdbInput = []string{in}
+		conf.Options.TargetRdbOutput = filepath.Join(c.TmpDir, "c19-out")
+		conf.Options.Parallel = 2
+		s := simrt.Run(c.TT, t, cfg, func(s *simrt.Sim) {
+			proc := s.NewProc("tool")
+			done := false
+			s.GoProc(proc, "decode-main", func() { (&run.CmdDecode{}).Main(); done = true })
+			for i := 0; i < 300 && !done && s.Alive(proc); i++ {
+				s.Sleep(100 * time.Millisecond)
+			}
+			if b, err := json.Marshal(conf.GetSafeOptions()); err == nil {
+				status = append(status, "GetSafeOptions: "+string(b))
+			}
+		})
+		c.Absorb(s)
 	case "checkpoint":
 		env.DefaultOptions(conf.TypeSync)
 		lc = env.CaptureLog(level, 8<<20)
@@ -342,7 +396,7 @@ func init() {
 			"sentinels are 17 characters from an alphabet without digits 0/1 and letters l/I/O, so an accidental match is practically impossible",
 		},
 		RealVsStub: "real: run.CmdSync/CmdRestore/CmdRump mains, dbSync, checkpoint, slotsupervisor, metric.NewMetricRest, conf.GetSafeOptions, pkg/libs/log; simulated: TCP, peers (AUTH required), clock, scheduling, connection resets, process restart",
-		ProbeNames: []string{"auth_rejected_with_echo", "scenario_sync", "scenario_sync-target-cut", "scenario_sync-source-cut", "scenario_restore", "scenario_rump", "scenario_checkpoint", "scenario_supervisor", "level_debug", "level_error"},
+		ProbeNames: []string{"auth_rejected_with_echo", "scenario_sync", "scenario_sync-target-cut", "scenario_sync-source-cut", "scenario_restore", "scenario_rump", "scenario_checkpoint", "scenario_supervisor", "scenario_dump", "scenario_decode", "level_debug", "level_error"},
 		FaultNames: []string{"conn_reset"},
 	})
 }
